@@ -26,6 +26,12 @@ func TestC12(t *testing.T) {
 		for k := 0; k < 2; k++ {
 			res.Count(fmt.Sprintf("replay%d", k))
 		}
+		if rp.Path == "overlap" {
+			if err := OverlapPart(res, r.Scratch); err != nil {
+				res.Infra = err.Error()
+			}
+			return
+		}
 		f, err := StartFixture(rp.Cfg(), r.Scratch, "")
 		if err != nil {
 			res.Infra = err.Error()
@@ -39,6 +45,17 @@ func TestC12(t *testing.T) {
 		return
 	}
 
+	if !hx.SelfTest() {
+		// first (what it finds can bring the whole process down once many sites are busy)
+		before := res.MismatchCount()
+		if err := OverlapPart(res, r.Scratch); err != nil {
+			res.Infra = err.Error()
+			return
+		}
+		if res.MismatchCount() > before {
+			return
+		}
+	}
 	cases := hx.LoadCases[Case](t, "Middleware")
 	rnd := hx.Rand()
 	groups := GroupByConfig(cases)
